@@ -103,10 +103,20 @@ func handleConnect(c *Client, e Event) {
 // nickCollisionHandler helps prevent the client from having conflicting
 // nicknames with another bot, user, etc.
 func nickCollisionHandler(c *Client, e Event) {
+	// The client's own nickname is tracked even when tracking is disabled
+	// (see handleConnect), whereas GetNick() panics in that case.
+	c.state.RLock()
+	current := c.state.nick
+	c.state.RUnlock()
+
+	if current == "" {
+		current = c.Config.Nick
+	}
+
 	if c.Config.HandleNickCollide == nil {
 		// Build on the nickname the server just rejected, so that repeated
 		// collisions try nick_, nick__, and so on.
-		nick := c.GetNick()
+		nick := current
 		if len(e.Params) >= 2 && IsValidNick(e.Params[1]) {
 			nick = e.Params[1]
 		}
@@ -115,7 +125,7 @@ func nickCollisionHandler(c *Client, e Event) {
 		return
 	}
 
-	newNick := c.Config.HandleNickCollide(c.GetNick())
+	newNick := c.Config.HandleNickCollide(current)
 	if newNick != "" {
 		c.Cmd.Nick(newNick)
 	}
